@@ -133,3 +133,21 @@ Proof.
   rewrite F in E1, E2. rewrite Cc in E3, E4. cbn in E1, E2, E3, E4.
   rewrite E1, E2, E3, E4, <- !incidences_fst, <- !incidences_snd, !combine_fst_snd. repeat split; reflexivity.
 Qed.
+
+(* ------------------------------------------------------------ (c) after a failed construction (a cell's face is missing):
+   the raw data object is left with every earlier step applied and its cell_faces container untouched, so that the caller
+   can supply the faces and build it again *)
+Theorem failed_prepare_left c r e : prepare c r = Err e ->
+  prepare_left c r = stage5 c r
+  /\ cf_elem (prepare_left c r) = cf_elem r /\ cf_adj (prepare_left c r) = cf_adj r.
+Proof.
+  intros H.
+  assert (E : prepare_left c r = stage5 c r).
+  { revert H. destruct c as [[] []]; unfold prepare_left, prepare, stage5, stage2, stage1; cbn;
+      match goal with |- context [generate_cell_faces ?x] => destruct (generate_cell_faces x) eqn:G end;
+      intros H; try discriminate H; unfold generate_cell_faces_left, cf_atomic; rewrite andb_false_r; reflexivity. }
+  rewrite E. destruct (stage5_cf c r) as [E1 E2]. auto.
+Qed.
+
+Lemma peek_changes_nothing r : apply_edit EPeek r = r.
+Proof. reflexivity. Qed.
